@@ -43,16 +43,15 @@ PROPS = {
         "note": "affine records with infinity=true and junk coordinates encode like the identity (hypothesis kept visible in the theorems)",
     },
     "C06": {
-        "modules": ["PP.Props.C06", "PP.Props.HashLen"], "level": "proof", "technique": "Lean 4 proof by composition (C13, C14, C15, C16, C17) + differential correspondence against python RFC pipeline",
-        "text": "hash_to_curve / encode_to_curve = hash_to_field (RFC 9380 section 5, C13) followed by the map of C14, for any expander meeting C13; subgroup clause under the curve-order hypotheses of C17." + DIFF,
-        "note": "RFC text/vectors unavailable offline; isogeny additivity (C16) and curve orders are explicit hypotheses/test-only",
-        "partial": ["subgroup membership conditional on curve-order hypotheses", "iso coefficients tied to RFC by structural theorems + repo KATs"],
+        "modules": ["PP.Props.C06", "PP.Props.HashLen", "PP.Props.CurveOrder"], "level": "proof", "technique": "Lean 4 proof by composition (C13, C14, C15, C16, C17, curve orders) + differential correspondence against python RFC pipeline",
+        "text": "hash_to_curve / encode_to_curve = hash_to_field (RFC 9380 section 5, C13) followed by the map of C14, for any expander meeting C13; the result lies in the order-r subgroup (hashToCurveG1_inSub' etc., hypothesis-free). The curve groups are determined outright (PP.Props.CurveOrder): #E(Fq) = h1*r, E(Fq) = Z/((1-x)/3) x Z/((1-x)r) with explicit generators, exponent (1-x)r; #E'(Fq2) = h2*r, E'(Fq2) = Z/299 x Z/(h2 r/299) — from the trivial bound #E <= 2|F|+1, the negative traces, points of exactly known order (kernel evaluation, Pratt certificates for all prime factors incl. the 448-bit cofactor prime) and the order-3 automorphism (x,y)->(beta x,y) for independence; so the subgroup clauses hold with NO hypothesis." + DIFF,
+        "note": "RFC text/vectors unavailable offline: iso coefficients tied to the RFC by structural theorems + repo KATs; isogeny additivity (C16) is test-only (not needed for this property)",
+        "partial": ["iso coefficients tied to RFC by structural theorems + repo KATs"],
     },
     "C07": {
-        "modules": ["PP.Props.C07"], "level": "proof", "technique": "Lean 4 proof (predicate characterisation for all coordinate records, closure invariants, generators by kernel evaluation) + differential correspondence",
-        "text": "in_subgroup(x,y,inf) = true iff inf or (on curve and r•P = 0), for ALL coordinate records over Fq/Fq2; rejects off-curve pairs, twist points, every point whose order divides the cofactor; the invariant 'on curve and killed by r' is preserved by all arithmetic, conversions, scalar multiplication, batch normalisation and any program; both extracted generators are members of exact order r (kernel evaluation)." + DIFF,
-        "note": "random sampling / cofactor scaling / hash outputs: conditional on the curve-order hypothesis (point counting is out of reach)",
-        "partial": ["sampling and hashing clauses conditional on #E = h*r"],
+        "modules": ["PP.Props.C07", "PP.Props.CurveOrder"], "level": "proof", "technique": "Lean 4 proof (predicate characterisation for all coordinate records, closure invariants, generators by kernel evaluation, curve group orders and structure) + differential correspondence",
+        "text": "in_subgroup(x,y,inf) = true iff inf or (on curve and r•P = 0), for ALL coordinate records over Fq/Fq2; rejects off-curve pairs, twist points, every point whose order divides the cofactor; the invariant 'on curve and killed by r' is preserved by all arithmetic, conversions, scalar multiplication, batch normalisation and any program; both extracted generators are members of exact order r (kernel evaluation); cofactor scaling, the sampling candidate, map and hash outputs are members without any hypothesis. The curve groups are determined outright (PP.Props.CurveOrder): #E(Fq) = h1*r, E(Fq) = Z/((1-x)/3) x Z/((1-x)r) with explicit generators, exponent (1-x)r; #E'(Fq2) = h2*r, E'(Fq2) = Z/299 x Z/(h2 r/299) — from the trivial bound #E <= 2|F|+1, the negative traces, points of exactly known order (kernel evaluation, Pratt certificates for all prime factors incl. the 448-bit cofactor prime) and the order-3 automorphism (x,y)->(beta x,y) for independence; so the subgroup clauses hold with NO hypothesis." + DIFF,
+        "note": "none beyond the trusted base (the PRNG of random() is a parameter)",
     },
     "C08": {
         "modules": ["PP.Props.C08", "PP.Props.C08Limb"], "level": "proof", "technique": "Lean 4 proof (Montgomery REDC, binary Euclid with fuel adequacy, limb-level arithmetic) + differential correspondence on raw limbs",
@@ -87,10 +86,9 @@ PROPS = {
         "note": "the hash function is a parameter of the theorems; sha2/sha3 crates are validated differentially against PP/Spec/Hash.lean and python hashlib",
     },
     "C14": {
-        "modules": ["PP.Props.C14"], "level": "proof", "technique": "Lean 4 proof by composition (C01 on the target curve, C15, C16, C17) + refutation of the pre-fix code + differential correspondence with constructed collisions",
-        "text": "map = clear(iso(sswu u)), map2 = clear(iso(sswu u0) + iso(sswu u1)) with + the group law, for ALL pairs incl. u0=u1, u0=-u1, colliding images (after the fix commit); no panic; the pre-fix composition is refuted by a kernel-checked witness." + DIFF,
-        "note": "subgroup clause conditional on curve order/exponent hypotheses (C17)",
-        "partial": ["subgroup membership conditional on curve-order hypotheses"],
+        "modules": ["PP.Props.C14", "PP.Props.CurveOrder"], "level": "proof", "technique": "Lean 4 proof by composition (C01 on the target curve, C15, C16, C17, curve orders) + refutation of the pre-fix code + differential correspondence with constructed collisions",
+        "text": "map = clear(iso(sswu u)), map2 = clear(iso(sswu u0) + iso(sswu u1)) with + the group law, for ALL pairs incl. u0=u1, u0=-u1, colliding images (after the fix commit); no panic; the pre-fix composition is refuted by a kernel-checked witness; outputs lie in the order-r subgroup (g1_map_inSub', g1_map2_inSub', g2_map_inSub', g2_map2_inSub', hypothesis-free). The curve groups are determined outright (PP.Props.CurveOrder): #E(Fq) = h1*r, E(Fq) = Z/((1-x)/3) x Z/((1-x)r) with explicit generators, exponent (1-x)r; #E'(Fq2) = h2*r, E'(Fq2) = Z/299 x Z/(h2 r/299) — from the trivial bound #E <= 2|F|+1, the negative traces, points of exactly known order (kernel evaluation, Pratt certificates for all prime factors incl. the 448-bit cofactor prime) and the order-3 automorphism (x,y)->(beta x,y) for independence; so the subgroup clauses hold with NO hypothesis." + DIFF,
+        "note": "none beyond the trusted base",
     },
     "C15": {
         "modules": ["PP.Props.C15", "PP.Props.C15Inst"], "level": "proof", "technique": "Lean 4 proof (field algebra, Euler criterion, roots-of-unity case analysis on extracted constants, no-root certificates) + differential correspondence per branch class",
@@ -104,10 +102,9 @@ PROPS = {
         "partial": ["homomorphism law (test only)"],
     },
     "C17": {
-        "modules": ["PP.Props.C17", "PP.Props.C17Inst"], "level": "proof", "technique": "Lean 4 proof (straight-line program simulation, exponents of the extracted chains in the kernel) + differential correspondence on full-curve points",
-        "text": "clear_h = [h_eff] on EVERY curve point (G1: 0xd201000000010001; G2: the 636-bit constant = 3(x^2-1)h2), additive, identity to identity; field chains compute x^((q-3)/4), x^((q^2-9)/16)." + DIFF,
-        "note": "subgroup clause: G2 from h2 | h_eff under #E'(Fq2) = h2*r (hypothesis); G1 needs the group exponent (hypothesis) — tested on full-curve points of every small order",
-        "partial": ["'result lies in the subgroup' conditional on curve order (G2) / exponent (G1)"],
+        "modules": ["PP.Props.C17", "PP.Props.C17Inst", "PP.Props.CurveOrder"], "level": "proof", "technique": "Lean 4 proof (straight-line program simulation, exponents of the extracted chains in the kernel, curve group orders and exponent) + differential correspondence on full-curve points",
+        "text": "clear_h = [h_eff] on EVERY curve point (G1: 0xd201000000010001; G2: the 636-bit constant = 3(x^2-1)h2), additive, identity to identity; field chains compute x^((q-3)/4), x^((q^2-9)/16); the result lies in the order-r subgroup for every curve point (g1_clearH_inSub', g2_clearH_inSub', hypothesis-free). The curve groups are determined outright (PP.Props.CurveOrder): #E(Fq) = h1*r, E(Fq) = Z/((1-x)/3) x Z/((1-x)r) with explicit generators, exponent (1-x)r; #E'(Fq2) = h2*r, E'(Fq2) = Z/299 x Z/(h2 r/299) — from the trivial bound #E <= 2|F|+1, the negative traces, points of exactly known order (kernel evaluation, Pratt certificates for all prime factors incl. the 448-bit cofactor prime) and the order-3 automorphism (x,y)->(beta x,y) for independence; so the subgroup clauses hold with NO hypothesis." + DIFF,
+        "note": "none beyond the trusted base",
     },
     "C18": {
         "modules": ["PP.Props.C18", "PP.Props.C18Inst"], "level": "proof", "technique": "Lean 4 proof (Euler criterion, Tonelli-Shanks invariant and termination, Algorithm 9 over Fq2) + differential correspondence on squares/non-squares",
